@@ -566,7 +566,7 @@ class __Class(_pre.Pregex):
                 start_1, end_1 = ranges1[i]
                 for start_2, end_2 in ranges2:
                     if start_1 <= end_2 and end_1 >= start_2:
-                        if start_1 == start_2 and end_1 == end_2:
+                        if start_1 >= start_2 and end_1 <= end_2:
                             ranges1.pop(i)
                             i -= 1
                             break
